@@ -17,6 +17,7 @@ MANIFEST = dict(
     ref='5.4, 6 C14')
 
 HASH_PROPS = ["SolvedCollides", "Valid", "OwnTraits", "DistinctDefsDistinctTraits", "schema export"]
+OTHER = {"ReuseCountField_flags", "ReuseCountField_order"}
 REUSE = {"ReuseCountField_members_replaced", "ReuseCountField_members_added", "ReuseCountField_nested_dropped", "ReuseCountField_nested_member"}
 
 
@@ -52,7 +53,9 @@ def run(ctx):
     q = ctx.quick
     g, h = models(ctx)
     ctx.tick("model")
-    reuse = [l for l in g["leaves"] if sc.features(l) & REUSE]
+    # C14 is about definitions that differ in members or nested groups; the same members with other flags or another
+    # order are C13's subject (finding group_identity_ignores_flags_and_order)
+    reuse = [l for l in g["leaves"] if sc.features(l) & REUSE and not sc.features(l) & OTHER]
     if len(reuse) < 20 or len(h["leaves"]) < 20:
         raise core.Infra("too few two-definition schemas exported (%d reuse, %d collisions)" % (len(reuse), len(h["leaves"])))
     n_r, n_h = (5, 5) if q else (60, 70)
